@@ -147,11 +147,13 @@ def runOffsets (arg : String) : String :=
     match offsetsEncode ls with
     | none => "error"
     | some r =>
-      match offsetsDecode r with
+      match r.takeAt r.blockCount with
       | none => "error"
-      | some sizes =>
-        let offs := sizes.foldl (fun (acc : List Nat × Nat) s => (acc.1 ++ [acc.2], acc.2 + s)) ([], 0)
-        s!"remaining={r.blockCount} sizes={",".intercalate (sizes.map toString)} offsets={",".intercalate (offs.1.map toString)} total={offs.2}"
+      | some pairs =>
+        let sizes := pairs.map (·.2)
+        let offs := pairs.map (·.1)
+        let total := (sizes.foldl (· + ·) 0)
+        s!"remaining={r.blockCount} sizes={",".intercalate (sizes.map toString)} offsets={",".intercalate (offs.map toString)} total={total}"
 
 partial def mainLoop (h : IO.FS.Stream) : IO Unit := do
   let line ← h.getLine
